@@ -91,6 +91,34 @@ def sentinels(ctx):
     ctx.floor(n, 15, "calls scanned in the manager loop")
 
 
+def sentinels_fresh(ctx):
+    """The manager thread takes the list of worker sentinels each time it (re-)enters its wait. Workers spawned by the
+    submitting thread AFTER the manager thread was woken are therefore not watched until something else wakes it: if they
+    die, the futures they run never fail. On the submit path the spawn (`_ensure_executor_running` ->
+    `_adjust_process_count`) must precede the wake-up, so that the snapshot taken after the wake-up contains them."""
+    f = ctx.repo.func(PE, "ProcessPoolExecutor.submit")
+    g = cfg_of(f)
+    wk = [c for c in calls_in(f) if call_attr(c) == "wakeup" and "manager_thread_wakeup" in (dotted(c.func.value) or "")]
+    sp = [c for c in calls_in(f) if call_name(c) in ("self._ensure_executor_running", "self._adjust_process_count")]
+    if not wk:
+        ctx.bad(f, "submit no longer wakes the manager thread: a queued work item is not handed to the workers", key=PE + "::ProcessPoolExecutor.submit::wake-up")
+        return
+    ctx.need(sp, "submit no longer (re)starts workers")
+    for w in wk:
+        ctx.check(g.every_path_to(g.nodes_of(w), g.nodes_of_all(sp)) and not g.path_exists(g.nodes_of(w), g.nodes_of_all(sp)), w,
+                  "the workers that will run the item exist before the manager thread is woken (its next wait watches their sentinels)",
+                  "the manager thread is woken before `%s`: it can re-enter its wait with a list of sentinels taken before the new workers were spawned "
+                  "(all workers had exited on idle timeout) - if those workers die, nothing wakes it and the call hangs" % unparse(sp[0], 50))
+    # the spawn helper really is what registers the processes the wait iterates over
+    er = ctx.repo.func(PE, "ProcessPoolExecutor._ensure_executor_running")
+    ctx.check(any(call_name(c) == "self._adjust_process_count" for c in calls_in(er)), er, "_ensure_executor_running spawns the missing workers")
+    ad = ctx.repo.func(PE, "ProcessPoolExecutor._adjust_process_count")
+    reg = [a for a in nodes_of_type(ad, ast.Assign) if any(t.startswith("self._processes[") for t in stores_to(a))]
+    st = [c for c in calls_in(ad) if call_attr(c) == "start"]
+    ga = cfg_of(ad)
+    ctx.check(bool(reg) and bool(st) and ga.every_path_to(ga.nodes_of_all(reg), ga.nodes_of_all(st)), reg[0] if reg else ad, "a spawned worker is registered in the process table (the source of the sentinels) once started")
+
+
 def default_broken(ctx):
     f = M(ctx, "wait_result_broken_or_wakeup")
     g = cfg_of(f)
@@ -385,6 +413,7 @@ def broken_branch_total(ctx):
 def run(ctx):
     ctx.run("C10.BROKEN-BRANCH-TOTAL", "R-ERRDISC", broken_branch_total)
     ctx.run("C10.SENTINELS", "R-FLOW", sentinels)
+    ctx.run("C10.SENTINELS-FRESH", "R-ORDER", sentinels_fresh)
     ctx.run("C10.DEFAULT-BROKEN", "R-ORDER", default_broken)
     ctx.run("C10.FAIL-ALL", "R-ORDER", fail_all)
     ctx.run("C10.SUBMIT-GUARD", "R-ORDER", submit_guard)
